@@ -100,12 +100,13 @@ class World(StackWorld):
         from autobahn.wamp import types
         self.reg_watch = {}
         self.unregistered = set()
-        for name, opts in (("plain", None), ("details", types.RegisterOptions(details_arg="details"))):
+        for name, opts in (("plain", None), ("details", types.RegisterOptions(details_arg="details")),
+                           ("pfx", types.RegisterOptions(match="prefix"))):
             proc = "com.example.%s" % name
             f = self.fw.call(self, self.callee.register, self.make_endpoint(name), proc, opts)
             self.reg_watch[name] = self.fw.watch(f)
         self.pump_all()
-        if len(self.regs) != 2:
+        if len(self.regs) != 3:
             raise SetupViolation("registration-did-not-complete:%s/%s" % (kind, self.fwname), repr(self.regs))
         self.ops_left = 2 + ch.choose(8, "ninv")
         self.run.log("cfg", sorted((k, repr(v)) for k, v in cfg.items()))
@@ -257,7 +258,7 @@ class World(StackWorld):
 
     def app_unregister(self):
         ch = self.run.ch
-        name = ch.pick([n for n in ("plain", "details") if n not in self.unreg_started], "unregister-which")
+        name = ch.pick([n for n in ("plain", "details", "pfx") if n not in self.unreg_started], "unregister-which")
         self.unreg_started.append(name)
         st = self.reg_watch[name].state()
         if st[0] != "ok":
@@ -279,13 +280,17 @@ class World(StackWorld):
         inv.behaviour = ch.pick(BEHAVIOURS, "behaviour")
         if inv.behaviour == "oversized" and self.limit is None:
             inv.behaviour = "value"
-        inv.proc = ch.pick(("plain", "details"), "proc")
+        inv.proc = ch.pick(("plain", "details", "pfx"), "proc", (3, 3, 2))
         if "com.example." + inv.proc in self.unregistered:
-            other = "details" if inv.proc == "plain" else "plain"
-            if "com.example." + other in self.unregistered:
+            left = [n for n in ("plain", "details", "pfx") if "com.example." + n not in self.unregistered]
+            if not left:
                 self.ops_left += 1
                 return  # nothing left to invoke
-            inv.proc = other
+            inv.proc = left[0]
+        # pattern-based registration: the INVOCATION names the URI that was actually called - possibly a long one
+        inv.called_uri = None
+        if inv.proc == "pfx":
+            inv.called_uri = "com.example.pfx." + "u" * ch.pick((3, 300, 900), "called-uri-len")
         inv.receive_progress = ch.flag("receive_progress", 0.4)
         a, k = ch.pick(ARGSETS, "args")
         inv.args = [inv.token] + list(a)
@@ -306,7 +311,8 @@ class World(StackWorld):
         self.order.append(inv)
         self.by_token[inv.token] = inv
         msg = M.Invocation(inv.id, self.regs["com.example." + inv.proc], args=inv.args, kwargs=inv.kwargs or None,
-                           receive_progress=inv.receive_progress or None, caller=inv.caller, caller_authid="cid", caller_authrole="crole")
+                           receive_progress=inv.receive_progress or None, caller=inv.caller, caller_authid="cid", caller_authrole="crole",
+                           procedure=inv.called_uri)
         self.run.log("dealer", "INVOCATION", inv.id, inv.behaviour, inv.proc, inv.receive_progress)
         self.dealer_send(msg)
 
